@@ -51,6 +51,24 @@ fn all_builtins_enabled(pi: &PublicInput) -> Option<PublicInput> {
     Some(p2)
 }
 
+/// dynamic layout: the shipped parameters with exactly the builtin flags in `on` enabled
+fn with_builtins(pi: &PublicInput, on: &[&str]) -> Option<PublicInput> {
+    let d = pi.dynamic_params.as_ref()?;
+    let mut v = serde_json::to_value(d).unwrap();
+    for (k, x) in v.as_object_mut().unwrap().iter_mut() {
+        if k.starts_with("uses_") {
+            *x = (if on.iter().any(|b| k == &format!("uses_{b}_builtin")) { 1 } else { 0 }).into();
+        } else if k.ends_with("row_ratio") && x.as_u64() == Some(0) {
+            *x = 2048.into();
+        }
+    }
+    let mut p2: PublicInput = serde_json::from_value(serde_json::to_value(pi).unwrap()).unwrap();
+    p2.dynamic_params = Some(serde_json::from_value(v).unwrap());
+    Some(p2)
+}
+
+pub const DYNAMIC_BUILTINS: [&str; 10] = ["add_mod", "bitwise", "ec_op", "ecdsa", "keccak", "mul_mod", "pedersen", "poseidon", "range_check96", "range_check"];
+
 fn probe_layout<L: LayoutTrait + GenericLayoutTrait>(h: &Honest, rng: &mut Rng, rep: &mut Report, n_env: usize)
 where
     L::InteractionElements: Sync,
@@ -113,6 +131,41 @@ where
         rep.count("composition.unit_evaluations", nc as u64);
         if acc != f1 {
             rep.violation(&format!("C16|composition-not-sum-of-units|{lay}"), "f(c) != sum_i c_i f(e_i): some coefficient is used more than once, with a factor, or not at all", replay.clone());
+        }
+        if pi_enabled.is_some() && env == 0 {
+            // component membership, measured: the positions that become active when exactly one
+            // builtin is enabled. Every builtin must activate at least one position of its own, the
+            // sets must be pairwise disjoint and, with the core, cover every position.
+            let core = with_builtins(pi, &[]).unwrap();
+            let core_units: Vec<bool> = par_map(nc, |i| f(&core, &unit(nc, i)).map(|v| v != Felt::ZERO).unwrap_or(false));
+            let mut owner: Vec<Option<&str>> = vec![None; nc];
+            for b in DYNAMIC_BUILTINS {
+                let only = with_builtins(pi, &[b]).unwrap();
+                let act: Vec<bool> = par_map(nc, |i| f(&only, &unit(nc, i)).map(|v| v != Felt::ZERO).unwrap_or(false));
+                let mut own = 0;
+                for i in 0..nc {
+                    if core_units[i] && !act[i] {
+                        rep.violation(&format!("C16|dynamic-core-position-lost|{lay}"), &format!("core position {i} vanishes when builtin {b} is enabled"), json!({"layout": lay, "position": i, "builtin": b}));
+                    }
+                    if act[i] && !core_units[i] {
+                        own += 1;
+                        if let Some(o) = owner[i] {
+                            rep.violation(&format!("C16|dynamic-position-shared|{lay}"), &format!("position {i} is activated by builtin {o} and by builtin {b}"), json!({"layout": lay, "position": i}));
+                        }
+                        owner[i] = Some(b);
+                    }
+                }
+                rep.count(&format!("dynamic.positions_of.{b}"), own);
+                rep.case(&format!("{lay}|builtin-alone|{b}"), true);
+                if own == 0 {
+                    rep.violation(&format!("C16|dynamic-builtin-contributes-nothing|{lay}|{b}"), &format!("enabling builtin {b} alone activates no constraint coefficient position: its constraints are dropped (or gated by another builtin's flag)"), json!({"layout": lay, "builtin": b}));
+                }
+            }
+            let unowned = (0..nc).filter(|i| !core_units[*i] && owner[*i].is_none()).count();
+            rep.count("dynamic.core_positions", core_units.iter().filter(|x| **x).count() as u64);
+            if unowned > 0 {
+                rep.violation(&format!("C16|dynamic-position-unowned|{lay}"), &format!("{unowned} positions are neither core nor activated by any single builtin"), json!({"layout": lay}));
+            }
         }
         if let Some(pe) = &pi_enabled {
             let units_e: Vec<Result<Felt, String>> = par_map(nc, |i| f(pe, &unit(nc, i)));
